@@ -264,7 +264,7 @@ func Run(prop, dir, tier string, seed int64) error {
 			}
 		}
 		coqForm, coqDec, coqSP := "None", "None", "None"
-		docTree := "None"
+		docTree, spDoc := "None", "None"
 		times := map[string]*int64{}
 		var decIssuer *string
 		decoded := false
@@ -298,6 +298,7 @@ func Run(prop, dir, tier string, seed int64) error {
 				if q.Issuer != nil && s.Fault == nil {
 					if sp, ok := st.SPs[q.Issuer.Text]; ok {
 						coqSP = sso.CoqSP(sp)
+						spDoc = st.SPDocTerm(sp)
 					}
 				}
 			}
@@ -320,8 +321,8 @@ func Run(prop, dir, tier string, seed int64) error {
 		run.Res.Evaluations++
 		obs := fmt.Sprintf("{| lo_kind := %s; lo_status := %s; lo_irt := %s; lo_issuer := %s; lo_dest := %s; lo_target := %s; lo_relay := %s |}",
 			coqgen.Z(int64(o.Kind)), coqgen.Bytes(o.Status), coqgen.Bytes(o.IRT), coqgen.Bytes(o.Issuer), coqgen.Bytes(o.Dest), coqgen.Bytes(o.Target), coqgen.Bytes(o.Relay))
-		coq := fmt.Sprintf("{| lc_id := %s; lc_form := %s; lc_dec := %s; lc_sp := %s; lc_times := %s; lc_now := %s; lc_eid := %s; lc_obs := %s; lc_doc := %s |}",
-			coqgen.Z(int64(id)), coqForm, coqDec, coqSP, coqgen.List(tl), coqgen.Z(now.UnixMicro()), coqgen.Bytes(issuer+"/metadata"), obs, docTree)
+		coq := fmt.Sprintf("{| lc_id := %s; lc_form := %s; lc_dec := %s; lc_sp := %s; lc_times := %s; lc_now := %s; lc_eid := %s; lc_obs := %s; lc_spdoc := %s; lc_doc := %s |}",
+			coqgen.Z(int64(id)), coqForm, coqDec, coqSP, coqgen.List(tl), coqgen.Z(now.UnixMicro()), coqgen.Bytes(issuer+"/metadata"), obs, spDoc, docTree)
 		desc := map[string]interface{}{"scenario": s, "request": spec, "document": string(s.Req.XML()), "observed": o, "reply_kind": rep.Kind, "code": rep.Code, "panic": rep.Panic}
 		run.AddCase(id, coq, desc)
 		run.Count("mut=" + s.Mut)
